@@ -12,6 +12,18 @@ CHECKS = {
          "reference written from the published algorithms in harness/vh-mpq/src/lib.rs; a shared misreading would go unnoticed"),
  "C02": ("exploration", "differential exchange of archives in both directions with an independent MPQ implementation (lib/refmpq.py): every builder-written archive of the published-format subset is parsed and extracted by the reference, every reference-written archive is read by the library; mismatches are diagnosed against named deviation models so other changes stay visible", "differential oracle vs independent implementation, both directions", "§6 C02",
          "trusted base is an independent reading of the public MPQ format, not StormLib; subset V1/V2, classic tables, none/zlib/bzip2, no sector CRC"),
+ "C06": ("exploration", "operation histories on MutableArchive (bounded-exhaustive singles and pairs over a 98-letter alphabet on up to 16 starting archives, sampled triples, long random histories) checked against a plain map after close + reopen", "reference-model monitor (persistent map) over operation histories; probe-loop step-counter hook for termination", "§6 C06",
+         "five history-level trigger predicates are known findings (V3+ modification, compact without listfile, compact on a stale view, block-table growth past the slack, rename of an encrypted file): histories in which one of them holds are reported under it and not checked further"),
+ "C07": ("exploration", "rebuild sweep source configuration x target version x overrides x verify/skip filters with independent re-read of source and target, summary arithmetic and compare_archives agreement", "reference re-read oracle (set/bytes comparison) + summary-count monitor", "§6 C07",
+         "a rebuild returning Err is allowed and only tallied; sources without listfile list nothing"),
+ "C13": ("exploration", "generated M2 models / skins / anim objects (29 sections each empty/one/many, extreme floats, long names) x 5 versions: write->parse projection equality, byte-identical rewrite, same-version and cross-version conversion, independent (count,offset) walker", "reference-model monitor (object before write) + independent offset walker", "§6 C13",
+         "projection exclusions are listed in evidence; nine writer/parser behaviours are known findings reported under risk=<predicate>"),
+ "C15": ("exploration", "generated WMO roots and groups (every list empty/one/many, aliasing string tables, extreme floats) x 5 versions x 25 conversion pairs: parse projections, byte-identical second write, header counts and string offsets via an independent chunk walker", "reference-model monitor + independent chunk walker", "§6 C15",
+         "exclusions listed in evidence; derived/unmodelled fields are not compared"),
+ "C16": ("exploration", "images x 25 targets x mipmaps x filters: encode->parse equality, mip chain to 1x1, independent mip-table walker (inside file, no overlap), exact raw3 pixels, palette-membership and alpha quantisation for raw1", "reference-model monitor + independent header walker + pixel oracle", "§6 C16",
+         "'quantised' admits floor, round or ceil; JPEG/DXT structure only"),
+ "C17": ("exploration", "generated schemas x record sets written by an independent DBC encoder; eager, cached, lazy, mmap, parallel and rewrite paths compared with the model and with each other; written size and string de-duplication; hashed and binary-search key lookups; ASan slice for the mmap path (thorough)", "reference-model monitor + independent encoder; AddressSanitizer on the mmap path", "§6 C17",
+         "WDBC with schemas only; valid inputs only"),
  "C12": ("fault_enumeration", "every state-changing syscall of build/compact (V1-V4, dest absent/present) is killed or failed (ENOSPC, EIO) with strace inject, plus two-fault sequences and RLIMIT_FSIZE short-write sweeps; a separate process judges the destination path afterwards (old | absent | complete new archive)", "syscall-level fault injection (strace) + post-mortem file-system oracle", "§6 C12",
          "process death and I/O errors only, not power loss; faults are confirmed to have fired inside the marker window from each run's own trace"),
  "C18": ("exploration", "generated WDT/WDL definitions x versions round trip against a plain model with an independent chunk walker, all version pairs converted, and the coordinate pair enumerated for all 4096 tiles (corner, centre, range)", "reference-model monitor + independent chunk walker; exhaustive 64x64 enumeration for the coordinate clause", "§6 C18",
